@@ -41,6 +41,13 @@ def run(ctx):
                     for s in starts:
                         items.append((s, l, [(m, data)]))
     R.exhaustive.append("capacity -1/0/+1 for all 160 (version, level) x 3 modes (starts sampled in the quick tier)")
+    allpairs = [(v, l) for v in range(1, 41) for l in range(4)]
+    mpairs = allpairs if tier == "thorough" else [p for p in allpairs if (p[0] + p[1]) % 3 == seed % 3]
+    for (v, l, segs, d) in gens.multi_segment_boundary_items(rnd, caps, mpairs):
+        for s in ((0, v) if tier == "thorough" else (rnd.choice([0, 0, v, max(1, v - 1)]),)):
+            items.append((s, l, segs))
+    R.exhaustive.append("two-segment streams (alphanumeric or byte prefix of 1,2,3,5,7,11 characters + numeric tail) at capacity -2..+3 bits"
+                        " for every (version, level) (a third of them in the quick tier)")
     for c in gens.class_crossing_cases(rnd, caps):
         segs = []
         for d, _ in c["calls"]:
